@@ -7,15 +7,21 @@
 //!      data at exactly the same step as the identity run;
 //!  (b) replacing the model at one position changes at most the symbol at that position;
 //!  (c) flipping one data bit changes at most one chunk (none if the bit is consumed by the
-//!      head initialisation) and never the step at which data runs out.
+//!      head initialisation) and never the step at which data runs out;
+//!  (d) operations that are *refused* in between - a decode after the data ran out, a seek the
+//!      backend rejects, a read the word source fails transiently - do not shift the
+//!      correspondence: the i-th successfully decoded symbol still comes from chunk i, and a
+//!      coder that ran out of data stays out of data however often one retries.
 
 use crate::num::Num;
 use crate::prng::Rng;
 use crate::props::c13::gen_chain_data;
 use crate::report::Run;
 use crate::table::*;
-use constriction::stream::chain::{ChainCoder, DecoderFrontendError};
+use constriction::backends::FallibleIteratorReadWords;
+use constriction::stream::chain::{BackendError, ChainCoder, DecoderFrontendError};
 use constriction::stream::Decode;
+use constriction::{Pos, Seek};
 use constriction::CoderError;
 use num_traits::AsPrimitive;
 
@@ -177,6 +183,94 @@ where
         }
         if diff.is_empty() {
             flips_into_heads += 1;
+        }
+    }
+    // (d) refused operations in between do not shift anything
+    {
+        // d1/d2: same models, with seeks the backend must refuse, and retries after the end
+        let Some(mut c) = build::<W, S, P>(&data, compressed) else {
+            fail!("C14/undocumented-error", "second construction from the same data failed");
+        };
+        let mut snap = c.pos();
+        let mut refused = 0u64;
+        let mut got: Vec<usize> = Vec::new();
+        let mut ended = false;
+        for (i, mdl) in models.iter().enumerate() {
+            if rng.chance(1, 4) {
+                let here = c.pos();
+                if here.0.compressed < snap.0.compressed {
+                    // a Vec can only be sought downwards, so going back to `snap` is impossible
+                    match c.seek(snap) {
+                        Err(()) => refused += 1,
+                        Ok(()) => fail!("C14/seek-back-accepted", "seek from compressed position {:?} back to {:?} succeeded on a Vec", here.0.compressed, snap.0.compressed),
+                    }
+                } else if rng.bool() {
+                    snap = here;
+                }
+            }
+            match c.decode_symbol(*mdl) {
+                Ok(sy) => got.push(sy),
+                Err(CoderError::Frontend(DecoderFrontendError::OutOfCompressedData)) => {
+                    ended = true;
+                    break;
+                }
+                Err(e) => fail!("C14/undocumented-error", "decode #{i} returned {e:?}"),
+            }
+        }
+        if got != base {
+            let k = (0..got.len().min(base.len())).find(|&i| got[i] != base[i]);
+            fail!("C14/refused-seek-shifts-chunks", "with {refused} refused seeks in between, {} symbols were decoded instead of {m}; first difference at {k:?}", got.len());
+        }
+        run.count("refused_seeks", refused);
+        if ended {
+            let retries = rng.usize_in(1, 6);
+            for r in 0..retries {
+                let mdl = &zoo[rng.below(zoo.len() as u64) as usize];
+                match c.decode_symbol(mdl) {
+                    Err(CoderError::Frontend(DecoderFrontendError::OutOfCompressedData)) => {}
+                    other => fail!("C14/out-of-data-not-final", "retry #{r} after running out of data returned {other:?}"),
+                }
+            }
+            run.count("retries_after_out_of_data", retries as u64);
+        }
+        // d3: word source with transient read failures (words come in the order a Vec would pop them)
+        let mut src: Vec<Result<W, &'static str>> = data.iter().rev().map(|&w| Ok(w)).collect();
+        let head_words = (S::NBITS / W::NBITS) as usize;
+        let n_glitch = rng.usize_in(1, 3);
+        for _ in 0..n_glitch {
+            let at = rng.usize_in(head_words.min(src.len()), src.len());
+            src.insert(at, Err("glitch"));
+        }
+        type Fc<W, S, const P: usize> = ChainCoder<W, S, FallibleIteratorReadWords<std::vec::IntoIter<Result<W, &'static str>>>, Vec<W>, P>;
+        let built = if compressed { Fc::<W, S, P>::from_compressed(FallibleIteratorReadWords::new(src)).ok() } else { Fc::<W, S, P>::from_binary(FallibleIteratorReadWords::new(src)).ok() };
+        if let Some(mut c) = built {
+            let mut got: Vec<usize> = Vec::new();
+            let mut glitches = 0u64;
+            'outer: for (i, mdl) in models.iter().enumerate() {
+                loop {
+                    match c.decode_symbol(*mdl) {
+                        Ok(sy) => {
+                            got.push(sy);
+                            break;
+                        }
+                        Err(CoderError::Backend(BackendError::Compressed(_))) => {
+                            glitches += 1;
+                            if glitches > 16 {
+                                fail!("C14/undocumented-error", "more read failures reported than were injected");
+                            }
+                        }
+                        Err(CoderError::Frontend(DecoderFrontendError::OutOfCompressedData)) => break 'outer,
+                        Err(e) => fail!("C14/undocumented-error", "decode #{i} over a glitchy source returned {e:?}"),
+                    }
+                }
+            }
+            if got != base {
+                let k = (0..got.len().min(base.len())).find(|&i| got[i] != base[i]);
+                fail!("C14/failed-read-shifts-chunks", "with {glitches} transient read failures, {} symbols were decoded instead of {m}; first difference at {k:?} (retrying the failed decode)", got.len());
+            }
+            run.count("transient_read_failures", glitches);
+        } else {
+            run.count("glitch_during_construction", 1);
         }
     }
     run.count("bit_flips", flips_done);
